@@ -108,6 +108,59 @@ Proof.
 Qed.
 Print Assumptions C13_fields_covered.
 
+(* ---- sharing inside the exported state ----
+   The live session database files objects under keys and two keys can lead to ONE object (the mint helpers file a grant a
+   second time under its encrypted session id).  The export writes one document per key, the import builds one new object
+   per key (sd_dump / sd_load), so:
+   (1) the restored database shows under every key what the original shows,
+   (2) but no two keys of it lead to one object: every sharing relation of the original is lost,
+   (3) which no later history notices AS LONG AS every reader and writer goes through a set K of keys no two of which
+       are shared in the original (the branch keys decrypt_branch_id yields) - the second filings may be created, they are
+       never read: same answers, for every later sequence of changes-in-place, reads, second filings, new objects, removals,
+   (4) also after any number of further export -> import rounds of the restored twin,
+   (5) session_manager[sid], resolved through the tree, hands out the same contents on both,
+   (6) and the condition is necessary: a reader that takes the entry filed under the session id itself sees the copy
+       taken at export time after a change through the tree (refuted statements, kept visible).
+   The driver checks the premise on the real provider (no two branch keys share an object; look-ups of one session that
+   hand out one object in the original hand out one object in the restored provider) and evaluates sd_dump / sd_load /
+   sd_exec on the real histories (chk_share). *)
+Theorem C13_restore_shows_same_contents : forall s k, sd_view (sd_load (sd_dump s)) k = sd_view s k.
+Proof. exact restore_views. Qed.
+Print Assumptions C13_restore_shows_same_contents.
+Theorem C13_restore_loses_sharing : forall s k1 k2, k1 <> k2 -> same_object (sd_load (sd_dump s)) k1 k2 = false.
+Proof. exact restore_loses_alias. Qed.
+Print Assumptions C13_restore_loses_sharing.
+Theorem C13_restore_equivalent_on_branch_keys : forall K s ops,
+  sd_canon K s -> forallb (op_canon K) ops = true -> sd_run (sd_load (sd_dump s)) ops = sd_run s ops.
+Proof. exact restore_equivalent_on_canonical_keys. Qed.
+Print Assumptions C13_restore_equivalent_on_branch_keys.
+Theorem C13_restore_chain_equivalent : forall K s ops1 ops2,
+  sd_canon K s -> forallb (op_canon K) ops1 = true -> forallb (op_canon K) ops2 = true ->
+  sd_run (sd_load (sd_dump (sd_exec (sd_load (sd_dump s)) ops1))) ops2 = sd_run (sd_exec s ops1) ops2.
+Proof. exact restore_chain_equivalent. Qed.
+Print Assumptions C13_restore_chain_equivalent.
+Theorem C13_lookup_by_session_id_restored : forall K s ops sidkey treekey,
+  sd_canon K s -> forallb (op_canon K) ops = true -> K treekey = true ->
+  sd_lookup true (sd_exec (sd_load (sd_dump s)) ops) sidkey treekey = sd_lookup true (sd_exec s ops) sidkey treekey.
+Proof. exact lookup_tree_restored. Qed.
+Print Assumptions C13_lookup_by_session_id_restored.
+Theorem C13_second_filing_read_refuted :
+  same_object ex_sdb ex_tree ex_sid = true
+  /\ sd_run ex_sdb [SUpd ex_tree (VBool true); SGet ex_sid] = [None; Some (VBool true)]
+  /\ sd_run (sd_load (sd_dump ex_sdb)) [SUpd ex_tree (VBool true); SGet ex_sid] = [None; Some (VBool false)].
+Proof. exact restore_not_equivalent_through_second_filing. Qed.
+Print Assumptions C13_second_filing_read_refuted.
+Theorem C13_lookup_by_second_filing_refuted :
+  sd_lookup false (sd_exec ex_sdb [SUpd ex_tree (VBool true)]) ex_sid ex_tree = Some (VBool true)
+  /\ sd_lookup false (sd_exec (sd_load (sd_dump ex_sdb)) [SUpd ex_tree (VBool true)]) ex_sid ex_tree = Some (VBool false).
+Proof. exact lookup_by_second_filing_refuted. Qed.
+Print Assumptions C13_lookup_by_second_filing_refuted.
+(* non-vacuity of the premise: the witness database is canonical for K = {the branch key} *)
+Example C13_sharing_nonvacuous :
+  sd_run (sd_load (sd_dump ex_sdb)) [SFile ex_tree ex_sid; SUpd ex_tree (VBool true); SGet ex_tree; SDel ex_tree; SGet ex_tree]
+  = [None; None; Some (VBool true); None; None].
+Proof. vm_compute. reflexivity. Qed.
+
 (* ---- non-vacuity ---- *)
 Definition ex_ops : list op :=
   [OSet (PS "https://c.example.org/x?y=1&z") (PS " v1 "); OSet (PS "a b") (PS "v2"); OSet (PS "a+b") (PS "v3");
